@@ -25,8 +25,8 @@ LEVEL_TEXT = ('Three finite families of DAQmx segments are enumerated completely
               'scaler type, padding, rows, chunks, byte order, 1-2 buffers of differing widths/lengths, 1-3 channels); the real '
               'reader result (eager, lazy windows, chunk streams) is compared with an independent extraction of the bytes.')
 LEVEL_NOTE = ('Trusted: the DAQmx raw-data-index encoder in mc/tdmsgen.py (written from the format description; Digital_Input.tdms and '
-              'raw1.tdms from LabVIEW are decoded structurally by selftest). Digital-line scalers wider than one byte are explored in '
-              'little-endian only (the addressed bit of a big-endian multi-byte digital word is not defined by the statement).')
+              'raw1.tdms from LabVIEW are decoded structurally by selftest). For digital-line scalers wider than one byte the addressed '
+              'bit is bit (offset mod 8) of the word read at byte offset (offset div 8) in the byte order of the segment.')
 ASSUMPTIONS = ['raw buffers that hold scalers of one channel have equal lengths', 'buffer bytes are a fixed pattern, not random (VERIF_SEED rotates its phase)']
 
 A, B, C = F.A, F.B, F.C
@@ -60,7 +60,7 @@ def fam_b():
             for bit in range(0, 8 * (width - size + 1)):
                 for n in (1, 3):
                     for chunks in (1, 2):
-                        for big in ((False, True) if size == 1 else (False,)):
+                        for big in (False, True):
                             sc = [(code, 0, bit, 0, 0)]
                             yield ('B', [G.seg([(A, F.daqmx_enc(n, sc, [width], 'dl'), nscales(sc))], chunks=chunks, big=big)])
     # lines sharing one byte: a port exactly as wide as the scaler type, and chunks of a single row
